@@ -53,7 +53,7 @@ def _case(draw, tier):
         "edge_seed": draw(st.integers(0, 999)),
         "withhold": sorted(draw(st.sets(sampled_from(["dvEdge", "dcEdge"])))) if src == "mpas" else [],
         "centred": centred,
-        "data": draw(datagen.data_spec(n, dtypes=["float64", "float32", "int64", "int32", "uint8", "uint16", "bool"], vmax=8)),
+        "data": draw(datagen.data_spec(n, dtypes=["float64", "float32", "int64", "int32", "uint8", "uint16", "bool"], vmax=8, stores=datagen.STORES)),
         "constant": draw(sampled_from([False, False, False, True])),
         "order": draw(st.permutations([0, 1, 2, 3])),
     }
